@@ -65,6 +65,8 @@ enum A {
 #[derive(Default)]
 struct Tr {
     v: Vec<(&'static str, u64, A)>,
+    /// set while a loaded instance (not the original) is being observed
+    loaded: bool,
 }
 
 impl Tr {
@@ -239,7 +241,7 @@ macro_rules! observe {
     ($c:ident, $path:expr, $want:expr, $what:expr, $val:expr, |$t:ident, $x:ident| $body:block) => {{
         let got = $c.guard($path, || {
             let v = $val;
-            let mut tr = Tr::default();
+            let mut tr = Tr { loaded: true, ..Tr::default() };
             {
                 let $t = &mut tr;
                 let $x = &v;
@@ -262,7 +264,7 @@ macro_rules! observe_case {
     ($c:ident, $path:expr, $want:expr, $what:expr, $val:expr, |$t:ident, $x:ident| $body:block) => {{
         let got = $c.guard($path, || {
             let v = $val;
-            let mut tr = Tr::default();
+            let mut tr = Tr { loaded: true, ..Tr::default() };
             {
                 let $t = &mut tr;
                 let $x = &*v;
@@ -999,6 +1001,27 @@ where
         t.p("succ_strict", v, ef.succ_strict(v));
         t.p("pred", v, ef.pred(v));
         t.p("pred_strict", v, ef.pred_strict(v));
+    }
+    // a borrowed (memory-mapped, zero-copy) instance reaches generic code by reference:
+    // the same queries through the forwarding implementations for `&T`
+    // (the original is asked directly, a loaded instance through `&T`, under the same keys)
+    fn by_ref<D: Succ<Input = usize, Output = usize> + Pred<Input = usize, Output = usize>>(t: &mut Tr, d: D, probes: &[usize]) {
+        for &v in probes.iter().take(300) {
+            t.p("generic_succ", v, d.succ(v));
+            t.p("generic_succ_strict", v, d.succ_strict(v));
+            t.p("generic_pred", v, d.pred(v));
+            t.p("generic_pred_strict", v, d.pred_strict(v));
+        }
+    }
+    if t.loaded {
+        by_ref(t, ef, &q.probes);
+    } else {
+        for &v in q.probes.iter().take(300) {
+            t.p("generic_succ", v, ef.succ(v));
+            t.p("generic_succ_strict", v, ef.succ_strict(v));
+            t.p("generic_pred", v, ef.pred(v));
+            t.p("generic_pred_strict", v, ef.pred_strict(v));
+        }
     }
 }
 
